@@ -68,6 +68,11 @@ def run_tsan(args):
     races = []
     blocks = err.split("WARNING: ThreadSanitizer:")[1:]
     for b in blocks:
+        # a race on an object that belongs to the C++ runtime itself (the classic locale's ctype<char>::narrow cache, which
+        # std::regex construction fills lazily; every writer stores the same byte) is not a race on BLOC's state
+        loc = [l for l in b.splitlines() if l.strip().startswith("Location is global")]
+        if loc and ("(libstdc++.so" in loc[0] or "(libc.so" in loc[0]):
+            continue
         kind = b.strip().split("(")[0].strip()
         site = "?"
         for line in b.splitlines():
@@ -85,8 +90,8 @@ def run_tsan(args):
 
 # ------------------------------------------------------------------------------------------------
 # (3) sequential orders
-SEQ_PRE = 'n = 10; function fsq(a) return integer is begin print "f" a; return a * a; end;'
-SEQ_PROG = 'n = n + 1; t = tab(2, n); print n fsq(n) t.count();'
+SEQ_PRE = 'n = 10; base = 5; name = "nm"; function fsq(a) return integer is begin print "f" a; return a * a; end;'
+SEQ_PROG = 'n = n + 1; t = tab(2, n); print n fsq(n) t.count(); b1 = base + n; b2 = base + n; c1 = name; c2 = name + "x"; print b1 b2 c1 c2 base name;'
 OPS = ["C", "RC", "RO", "PO", "FO", "FC", "FX"]
 
 
@@ -109,12 +114,12 @@ def seq_orders(maxlen):
                 if not s["clone"] or not s["exe"] or not s["clone_has"]:
                     continue
                 s["nc"] += 1
-                o = ("c", "%df%d\n%d2\n" % (s["nc"], s["nc"], s["nc"] ** 2))
+                o = ("c", "%df%d\n%d2\n%d%dnmnmx5nm\n" % (s["nc"], s["nc"], s["nc"] ** 2, 5 + s["nc"], 5 + s["nc"]))
             elif op == "RO":
                 if not s["orig"] or s["purged"] or not s["exe"]:
                     continue
                 s["no"] += 1
-                o = ("o", "%df%d\n%d2\n" % (s["no"], s["no"], s["no"] ** 2))
+                o = ("o", "%df%d\n%d2\n%d%dnmnmx5nm\n" % (s["no"], s["no"], s["no"] ** 2, 5 + s["no"], 5 + s["no"]))
             elif op == "PO":
                 if not s["orig"] or s["purged"]:
                     continue
@@ -269,7 +274,7 @@ def run(tier):
     total.parts = parts + [{"part": "tsan", "runs": tsan_runs}]
     total.merge(explore("%s-%s-orders" % (PROP, tier), seq_gen(tier), check, chunk=100, deadline=t0 + budget))
     rule = ("%d programs (recursion, table+forall, null logic, handled / unhandled / nested errors, strings, literals, function locals, deep error unwinding, "
-            "random, tuples) x configurations %s (threads, preemption bound): all schedules by depth-first iterative context bounding over the instrumented "
+            "random, tuples, inherited variables read as operands, matches with per-clone patterns) x configurations %s (threads, preemption bound): all schedules by depth-first iterative context bounding over the instrumented "
             "points, each compared with the sequential run; TSan free-running pass with %s threads; all precondition-respecting orders of clone/run/purge/free "
             "up to length %d. Non-trivial: every schedule runs all threads to completion" % (len(progs), configs, "2/4/8" if tier == "thorough" else "4", 6 if tier == "thorough" else 5))
     return finish(PROP, tier, total, check, rule, t0, extra={"schedules": schedules, "states": schedules, "preemption_bounds": configs},
